@@ -38,13 +38,14 @@ var shims = map[string][2]string{
 }
 
 func main() {
-	var rewrites, replaces, extracts multi
+	var rewrites, replaces, extracts, poolFields multi
 	repo := flag.String("repo", "/repo", "repository root")
 	hooks := flag.String("hooks", "/verif/hooks", "hooks root")
 	out := flag.String("out", "", "output dir (overlay.json + rewritten files)")
 	gostmts := flag.Bool("go", true, "rewrite go statements in rewritten packages")
 	flag.Var(&rewrites, "rewrite", "pkgdir[=import,import] (default imports: sync,sync/atomic)")
 	flag.Var(&replaces, "replace", "relpath=file")
+	flag.Var(&poolFields, "pool", "pkgdir:field — in that package, x.<field>.Go(f) / x.<field>.Wait() become vsched.PoolGo / vsched.PoolWait")
 	flag.Var(&extracts, "extract", "relfile:Func:caseIndex:NewName:prelude-source — copy the body of the caseIndex-th clause of the first for/select loop of Func into a new function NewName (same receiver) preceded by the given prelude statements")
 	flag.Parse()
 	if *out == "" {
@@ -155,7 +156,14 @@ func main() {
 					ex = append(ex, rest)
 				}
 			}
-			b, changed, stats, err := rewriteFile(fset, p.f, want, *gostmts, ex, info)
+			var pf []string
+			for _, x := range poolFields {
+				pd, fld, _ := strings.Cut(x, ":")
+				if pd == pkg {
+					pf = append(pf, fld)
+				}
+			}
+			b, changed, stats, err := rewriteFile(fset, p.f, want, *gostmts, ex, info, pf)
 			if err != nil {
 				fmt.Fprintf(os.Stderr, "overlay: %s: %v\n", src, err)
 				os.Exit(2)
@@ -191,9 +199,42 @@ func buildOK(path string) bool {
 	return err != nil || ok
 }
 
-func rewriteFile(fset *token.FileSet, f *ast.File, want map[string]bool, gostmts bool, extracts []string, info *types.Info) ([]byte, bool, map[string]int, error) {
+func rewriteFile(fset *token.FileSet, f *ast.File, want map[string]bool, gostmts bool, extracts []string, info *types.Info, poolFields []string) ([]byte, bool, map[string]int, error) {
 	stats := map[string]int{}
 	changed := false
+	poolN := 0
+	if len(poolFields) > 0 {
+		ast.Inspect(f, func(n ast.Node) bool {
+			call, ok := n.(*ast.CallExpr)
+			if !ok {
+				return true
+			}
+			sel, ok := call.Fun.(*ast.SelectorExpr)
+			if !ok || (sel.Sel.Name != "Go" && sel.Sel.Name != "Wait") {
+				return true
+			}
+			recv, ok := sel.X.(*ast.SelectorExpr)
+			if !ok {
+				return true
+			}
+			for _, fld := range poolFields {
+				if recv.Sel.Name == fld {
+					name := "PoolGo"
+					if sel.Sel.Name == "Wait" {
+						name = "PoolWait"
+					}
+					call.Args = append([]ast.Expr{recv}, call.Args...)
+					call.Fun = &ast.SelectorExpr{X: ast.NewIdent("vsched"), Sel: ast.NewIdent(name)}
+					poolN++
+				}
+			}
+			return true
+		})
+		if poolN > 0 {
+			stats["pool"] = poolN
+			changed = true
+		}
+	}
 	var extraSrc []string
 	for _, x := range extracts {
 		src, err := extractCase(fset, f, x)
@@ -281,6 +322,8 @@ func rewriteFile(fset *token.FileSet, f *ast.File, want map[string]bool, gostmts
 		if n > 0 {
 			stats["go"] = n
 			changed = true
+		}
+		if n > 0 || poolN > 0 {
 			// add import
 			spec := &ast.ImportSpec{Path: &ast.BasicLit{Kind: token.STRING, Value: strconv.Quote("verif/engine/vsched")}}
 			added := false
